@@ -222,15 +222,20 @@ def bypass(override: typing.Callable[[Container, typing.Any], 'parser.Source']) 
                 self: Visitor instance.
                 subject: Visited subject.
             """
-            method(self, subject)
             try:
                 new = override(self, subject)
             except dsl.UnprovisionedError:
-                pass
-            else:
-                old = self.context.symbols.pop()
-                LOGGER.debug('Overriding result for %s (%s -> %s)', subject, old, new)
-                self.context.symbols.push(new)
+                method(self, subject)
+                return
+            LOGGER.debug('Overriding result for %s (%s)', subject, new)
+            if isinstance(subject, dsl.Source):
+                # the provided source stands for everything within - including the origins it does not provide separately
+                for origin in {f.origin for f in dsl.Element.dissect(*subject.features)}:
+                    try:
+                        self.context.origins.setdefault(origin, self.resolve_source(origin))
+                    except dsl.UnprovisionedError:
+                        self.context.origins.setdefault(origin, new)
+            self.context.symbols.push(new)
 
         return wrapped
 
